@@ -7,6 +7,7 @@ CONSTANTS Names <- NamesCore
           Variants = {"fresh", "links", "tree"}
           HarmTypes = {"dir", "file", "link"}
           MaxEntries = 3
+          Reuse <- ReuseNone
           Devs = {}
 INVARIANTS Emit
 CHECK_DEADLOCK FALSE
